@@ -18,6 +18,11 @@ func main() {
 		os.Exit(runWitnesses(os.Args[2:]))
 	case "gen":
 		os.Exit(runGen(os.Args[2:]))
+	case "conc-child":
+		if devnull, err := os.OpenFile(os.DevNull, os.O_WRONLY, 0); err == nil {
+			os.Stdout = devnull
+		}
+		os.Exit(runConcChild(os.Args[2:]))
 	case "purity-child":
 		if devnull, err := os.OpenFile(os.DevNull, os.O_WRONLY, 0); err == nil {
 			os.Stdout = devnull
